@@ -21,7 +21,7 @@ for d in sorted(glob.glob(os.path.join(ROOT, "seeded", "*", ""))):
 n = len(rows)
 det = sum(1 for v in reg.values() if v.startswith("DETECTED"))
 conc = sum(1 for v in reg.values() if "concrete" in v)
-head = ("%d confirmed changes (3 are the reverses of the fix: commits, %d come from independent sub-agents in ten batches; the "
+head = ("%d confirmed changes (3 are the reverses of the fix: commits, %d come from independent sub-agents in eleven batches; the "
         "third and later batches were asked for changes that are hard to notice and told which earlier ideas were already known).  Each "
         "compiles and leaves the unedited suite at 101 passed (gen/confirm_mut.sh in a scratch worktree: patch only / patch+demo "
         "/ demo only).  Last full regression (gen/seeded_regress.sh, quick tier, default seed): %d of %d detected by the check of "
@@ -43,6 +43,9 @@ head = ("%d confirmed changes (3 are the reverses of the fix: commits, %d come f
         "with a concrete input: C10-agent1 (mon_C10), C11-agent1 / C11-agent3 (router generator: richer recipient, round trips, "
         "no-loss minimums), C20-agent3 (LP parked at the pair by a plain transfer), C13-agent3 (routes whose final asset is also spent by an earlier hop are now driven "
         "first, while the router is certainly empty, with no minimum; stray router balances only late and in half of the histories).\n\n"
+        "One confirmed change is NOT detected and is recorded as such: C19-agent11 (it acts only where two different asset sets share one "
+        "registry key, i.e. inside the recorded finding KF-key-concat, which the world model cannot express and the storage-level families "
+        "do not reach through CreatePair).\n\n"
         "| seeded id | change | needs | caught by | last regression |\n|---|---|---|---|---|\n" % (n, n - 3, det, len(reg), conc))
 p = os.path.join(ROOT, "DESIGN.md")
 s = open(p).read()
